@@ -65,3 +65,10 @@ let q_ops : M.q M.numOps = {
   nleb = M.qle_bool; nofQ = (fun x -> x);
   nexp = lift1 exp; nln = lift1 log; ntanh = lift1 tanh; nsqrt = lift1 sqrt;
   npow = (fun x a -> q_of_float (Float.pow (float_of_q x) (float_of_q a))) }
+
+(* result / tensor printers *)
+let sr f = function M.Ok a -> f a | M.Err -> "\"Err\""
+let stensor f = function
+  | M.T0 x -> "{\"t0\":" ^ f x ^ "}"
+  | M.T1 l -> "{\"t1\":" ^ sl f l ^ "}"
+  | M.T2 r -> "{\"t2\":" ^ sl (sl f) r ^ "}"
